@@ -20,7 +20,7 @@ class C01(Prop):
     components_stub = STUB
     assumptions = ["read accessors of the IR (.libraries, .pins, .wire, ...) report the stored state",
                    "arguments are always of the documented kind (a Port where a port is expected)"]
-    runs = {"quick": 12000, "thorough": 300000}
+    runs = {"quick": 9000, "thorough": 300000}
 
     def configure(self, rng, tier):
         return swarm_config(rng, base={"clone": 0.15})
